@@ -324,12 +324,49 @@ def run_proxy_chain(flag, order):
     return obs["val"] == "v" and v.parent is m.structs[0], obs
 
 
+# ---- RREL path over a MULTI-VALUED reference of which some elements are resolved and others still pending -----------------
+PARTIAL_GRAMMAR = r"""
+Model: (classes+=Class | aliases+=Alias | calls+=Call)*;
+Class: 'class' name=ID ('extends' extends+=[Class|ID|classes,aliases.~cls][','])? '{' methods*=Method '}';
+Alias: 'alias' name=ID '=' cls=[Class];
+Method: 'm' name=ID;
+Call: 'call' c=[Class] '.' m=[Method|ID|.~c.~extends*.methods];
+"""
+PARTIAL_STMTS = ["class B { m v }", "class C { m w m v }", "alias CA = C", "class A extends B , CA { }", "call A . %s"]
+PARTIAL_EXPECT = {"w": "C", "v": "B", "zz": None}
+
+
+def run_partial_list(method, order):
+    from textx import metamodel_from_str
+    from textx.exceptions import TextXSemanticError
+
+    if "partial" not in _S:
+        _S["partial"] = metamodel_from_str(PARTIAL_GRAMMAR)
+    stmts = PARTIAL_STMTS[:4] + [PARTIAL_STMTS[4] % method]
+    text = "\n".join(stmts[i] for i in order)
+    obs = {"family": "partially resolved reference list", "model": text, "expected_class_of_method": PARTIAL_EXPECT[method]}
+    try:
+        m = _S["partial"].model_from_str(text)
+    except TextXSemanticError as e:
+        obs["outcome"] = "error"
+        obs["message"] = e.message[:100]
+        return PARTIAL_EXPECT[method] is None and e.message.startswith("Unknown object"), obs
+    except BaseException as e:
+        obs["outcome"] = "other error %s: %s" % (type(e).__name__, str(e)[:100])
+        return False, obs
+    obs["outcome"] = "success"
+    obs["class_of_method"] = m.calls[0].m.parent.name
+    a = next(c for c in m.classes if c.name == "A")
+    obs["extends"] = [c.name for c in a.extends]
+    return obs["class_of_method"] == PARTIAL_EXPECT[method] and obs["extends"] == ["B", "C"], obs
+
+
 def work_proxy(arg):
     u = Unit()
     for flag, order in arg:
         cid = ["proxy-chain", flag, list(order)]
         with watchdog(10):
-            ok, obs = run_proxy_chain(flag, order)
+            ok, obs = run_partial_list(flag[8:], order) if flag.startswith("partial:") else run_proxy_chain(flag, order)
         u.case(cid, nontrivial=True, sample=obs if list(order) == [2, 3, 4, 1, 0] else None)
         u.count("proxy-chain outcome:" + obs["outcome"].split(" ")[0])
         u.transitions += 1
@@ -400,6 +437,7 @@ def run(ctx):
     real = [(order, meth, edges) for order in itertools.permutations(range(5)) for meth in REAL_EXPECT for edges in real_deps()]
     ctx.pmap(work_real, [real[i:i + 200] for i in range(0, len(real), 200)])
     pc = [(flag, order) for flag in ("", "+p:") for order in itertools.permutations(range(5))]
+    pc += [("partial:" + meth, order) for meth in PARTIAL_EXPECT for order in itertools.permutations(range(5))]
     ctx.pmap(work_proxy, [pc[i:i + 40] for i in range(0, len(pc), 40)])
     shapes = [(sh, order, method, prov) for sh, (st, expect) in SHAPES.items() for order in itertools.permutations(range(4)) for method in expect
               for prov in ("ExtRelativeName", "RelativeName")]
@@ -419,6 +457,8 @@ def run(ctx):
 
 def replay(p):
     if "proxy" in p:
+        if p["proxy"].startswith("partial:"):
+            return run_partial_list(p["proxy"][8:], tuple(p["order"]))
         return run_proxy_chain(p["proxy"], tuple(p["order"]))
     if "shape" in p:
         return run_shape(p["shape"], tuple(p["order"]), p["method"], p["provider"])
